@@ -517,6 +517,7 @@ impl PairEngine {
 
     fn exec_op(&mut self, ws0: &[&str], mon: &mut Monitor) -> String {
         let n = self.nusers;
+        let whale = self.whale;
         let w = self.w.as_mut().unwrap();
         let c01 = c01_tag(w);
         let pre0 = w.observe();
@@ -646,6 +647,17 @@ impl PairEngine {
                         let a = swap_attrs(res, &w.pair).first().cloned().unwrap_or([u128::MAX; 5]);
                         let q = [sr.return_amount.u128(), sr.spread_amount.u128(), sr.swap_fee_amount.u128(), sr.protocol_fee_amount.u128(), sr.burn_fee_amount.u128()];
                         mon.check("C02", "pair_simulation_eq_execution", q == a, d(format!("{op}: Simulation {q:?}, the swap itself {a:?}")));
+                    }
+                    // ---- C02 (the swap side of "the quote is what a swap does"): a swap that was just quoted, that
+                    // its sender can pay, that pays out something and whose spread is within the 50 % it allows
+                    // is not refused
+                    if let Outcome::Ok(sr) = &sim {
+                        let den = u512(sr.return_amount.u128()) + u512(sr.swap_fee_amount.u128()) + u512(sr.protocol_fee_amount.u128()) + u512(sr.burn_fee_amount.u128()) + u512(sr.spread_amount.u128());
+                        let within = u512(sr.spread_amount.u128()) * u512(2) <= den;
+                        if !whale && ms == Some(E18 / 2) && within && off > 0 && sr.return_amount.u128() > 0 && pre.users[u][dir] >= off {
+                            mon.stat("swap_quoted_funded_within_limit");
+                            mon.check("C02", "pair_quoted_swap_executes", matches!(o, Outcome::Ok(_)), d(format!("{op}: Simulation answered {:?} but the swap was refused ({})", (sr.return_amount.u128(), sr.spread_amount.u128()), status(&o))));
+                        }
                     }
                     if let Outcome::Ok(sr) = &sim {
                         // proceeds + the three fees = the constant-product gross output on the REPORTED reserves
